@@ -149,7 +149,7 @@ Section Model04.
     fold p ce fl.
     split_left.
     all: unfold ce, g, D.
-    - apply (fresh_compiles p T k fl Hg Hk). rewrite Hnb. reflexivity.
+    - apply (fresh_compiles p T k fl Hg Hk).
     - rewrite (values_eq p T k fl Hg Hk), sort_z_dsort. apply list_eqb_Z_refl.
     - rewrite (values_strings_length p T k fl Hg Hk). apply Nat.eqb_refl.
     - rewrite (strings_eq p T k fl Hg Hk), (values_eq p T k fl Hg Hk), map_map.
@@ -252,7 +252,7 @@ Section Model04.
     cbn [o_built o_values o_vmap o_mjson o_mtext o_sqlval o_ujson o_utext o_scan o_rt o_parse o_try o_isenum].
     fold p ce fl T. rewrite Hk.
     split_left.
-    - apply (fresh_compiles p T k fl Hg Hk). rewrite Hnb. reflexivity.
+    - apply (fresh_compiles p T k fl Hg Hk).
     - apply forallb_forall. intros xo Hin. apply in_map_iff in Hin. destruct Hin as [y [Heq _]]. subst xo.
       cbn [fst snd]. unfold marshal_json. rewrite spec_string_model. apply String.eqb_refl.
     - apply forallb_forall. intros xo Hin. apply in_map_iff in Hin. destruct Hin as [y [Heq _]]. subst xo.
@@ -479,24 +479,11 @@ Section Model14.
   Hypothesis Hg : guarded p T.
   Hypothesis Hk : kind_of_type p T = Some k.
   Hypothesis Hbit : f_bit fl = true.
-  Hypothesis Hrecv : recv_ok T = true.
   Hypothesis Hne : declared T p <> [].
 
   Let g := make_str p T k fl.
   Let ce := const_env p.
   Let D := declared T p.
-
-  Lemma shadow_v_false : shadow_v T = false.
-  Proof.
-    unfold recv_ok in Hrecv. apply andb_true_iff in Hrecv. destruct Hrecv as [_ Hv].
-    apply negb_true_iff in Hv. exact Hv.
-  Qed.
-
-  Lemma shadow_i_false : shadow_i T = false.
-  Proof.
-    unfold recv_ok in Hrecv. apply andb_true_iff in Hrecv. destruct Hrecv as [Hi _].
-    apply negb_true_iff in Hi. exact Hi.
-  Qed.
 
   Lemma the_gen_some14 : the_gen c = Some g.
   Proof.
@@ -558,7 +545,6 @@ Section Model14.
           -- unfold join. f_equal. apply map_ext_in. intros b Hb.
              apply name_part. apply mem_z_spec. apply Hall. exact Hb.
           -- exact Hbit.
-          -- exact shadow_v_false.
           -- apply (values_ascending p T k fl Hg Hk).
           -- exact (proj1 (vals_bits_declared Hbd)).
           -- apply bits_of_nonempty. exact Hpos.
@@ -576,14 +562,13 @@ Section Model14.
           pose proof (bits_of_single x) as Hs. rewrite Forall_forall in Hs.
           destruct (Hs b Hb) as [i [Hi Hbi]]. subst b.
           symmetry. apply (str_of_undeclared_bit ce g x i).
-          -- exact shadow_v_false.
           -- exact (vals_bits_declared Hbd).
           -- exact Hnin'.
           -- exact Hi.
           -- apply in_bits_of; assumption.
           -- intros Hin. apply (proj1 (values_in p T k fl Hg Hk _)) in Hin. apply (proj2 (mem_z_spec _ _)) in Hin. unfold D in Hm. rewrite Hin in Hm. discriminate Hm.
       + symmetry. destruct (Z.eq_dec x 0) as [Hz|Hnz].
-        * subst x. apply str_of_zero; [exact shadow_v_false | exact Hnin'].
+        * subst x. apply str_of_zero. exact Hnin'.
         * apply str_of_negative; [exact Hnin' | lia].
   Qed.
 
@@ -594,7 +579,7 @@ Section Model14.
     cbn [o_built o_bitn o_bitstr o_points o_bitops]. fold p ce fl T. rewrite Hbit. cbn [negb orb].
     rewrite orb_false_r.
     split_left.
-    - apply (fresh_compiles p T k fl Hg Hk). rewrite shadow_i_false. apply andb_false_r.
+    - apply (fresh_compiles p T k fl Hg Hk).
     - destruct (bits_declared_b (map snd D)) eqn:Hbd; [|reflexivity]. cbn [negb orb].
       apply bits_declared_b_spec in Hbd.
       assert (Heq : map (spec_bit_string c D) (range_from 0 (Z.to_nat (o_bitn o))) =
@@ -670,7 +655,7 @@ Proof.
     unfold model_obs. rewrite Hsome. cbn [o_built o_bitn o_bitstr o_points o_bitops].
     rewrite Hnb. cbn [negb orb]. rewrite !orb_true_r. cbn [negb orb].
     split_left.
-    + apply (fresh_compiles _ _ k _ Hg Hk). rewrite Hnb. reflexivity.
+    + apply (fresh_compiles _ _ k _ Hg Hk).
     + reflexivity.
     + apply forallb_forall. intros [x [s b]] Hin. apply in_map_iff in Hin.
       destruct Hin as [xo [Heq _]]. inversion Heq; subst. clear Heq.
@@ -682,13 +667,13 @@ Qed.
 
 Theorem Pb14_model_in_guard : forall c o,
   enum_guard (c_pkg c) (c_type c) = true ->
-  f_bit (c_flags c) = true -> recv_ok (c_type c) = true ->
+  f_bit (c_flags c) = true ->
   Pb14 c (model_obs c o) = true.
 Proof.
-  intros c o Hgd Hbit Hrecv. pose proof (proj1 (enum_guard_spec _ _) Hgd) as Hg.
+  intros c o Hgd Hbit. pose proof (proj1 (enum_guard_spec _ _) Hgd) as Hg.
   destruct (the_gen c) as [g|] eqn:Hgen.
   - destruct (generate_inv _ _ _ _ Hgen) as [k [Hk [Hgeq Hne]]].
-    apply (Pb14_model c o k Hg Hk Hbit Hrecv).
+    apply (Pb14_model c o k Hg Hk Hbit).
     intros Hnil. apply Hne. subst g. rewrite (names_eq _ _ k _ Hg Hk), Hnil. reflexivity.
   - pose proof (the_gen_none_declared c Hg Hgen) as Hnil.
     unfold Pb14, declared_obs, model_obs. rewrite Hgen, Hnil, Hbit. cbn. reflexivity.
